@@ -300,7 +300,7 @@ def run_shard(ctx):
     # the template families (streams on async sources, fragments split into several units of work, overlapping and
     # list-nested fragments) get a share of their own: they are where stops meet half-built incremental state
     for k in range(ctx.n(800, 12000)):
-        fam = (6, 6, 6, 10, 7, 9, 4, 3)[k % 8]
+        fam = (6, 6, 6, 10, 7, 9, 4, 3, 2)[k % 9]
         ctx.count("template_family_requests")
         check_request(ctx, (base + k) * 11 + fam, k + 1)
 
